@@ -70,4 +70,11 @@ def main(argv=None):
 
 
 if __name__ == "__main__":
-    sys.exit(main())
+    rc = main()
+    from . import runner as _r
+
+    if _r.HARD_EXIT:
+        sys.__stdout__.flush()
+        sys.__stderr__.flush()
+        os._exit(rc if isinstance(rc, int) else 2)
+    sys.exit(rc)
